@@ -9,6 +9,7 @@ pub mod tadrv;
 pub mod matrix;
 pub mod twohop;
 pub mod pack;
+pub mod life;
 pub mod slots {
     include!(concat!(env!("OUT_DIR"), "/slots.rs"));
     pub fn of(name: &str) -> &'static [&'static str] {
